@@ -652,7 +652,8 @@ func runSharded(c *Ctx) {
 				}
 				crashes++
 				c.Count("worker_crashes", 1)
-				c.Violate(crashSignature(stderr), fmt.Sprintf("worker process died (exit %d) while running case %d\n%s", exit, open, head(stderr, 3000)), open,
+				saveArtifact(c, fmt.Sprintf("crash-case%d.stderr", open), head(stderr, 400000))
+				c.Violate(crashSignature(stderr), fmt.Sprintf("worker process died (exit %d) while running case %d\n%s", exit, open, head(stderr, 24000)), open,
 					map[string]any{"case": open, "replay": fmt.Sprintf("./check %s --tier %s --seed %d --case %d", c.ID, c.Tier, c.Seed, open)})
 				if crashes > 30 {
 					c.Inconclusive(fmt.Sprintf("worker %d: too many crashes, shard abandoned at case %d", s, open))
